@@ -566,10 +566,7 @@ Proof.
   - inversion H1; subst. rewrite H3. apply IH. assumption.
 Qed.
 
-(** the limit the first allocation of channel [ch] leaves for denomination [d] (0: nothing) *)
-Definition remaining_transfer (allocs : list alloc) (ch d : N) : Z :=
-  match find_alloc allocs ch with Some a => amount_of d (a_limits a) | None => 0 end.
-
+(** [remaining_transfer allocs ch d] (AllowanceModel): the limit the first allocation of channel [ch] leaves for [d] *)
 (** no second allocation for the same channel (TransferAuthorization.ValidateBasic) *)
 Lemma nodup_chans_after seen a rest1 rest2 :
   nodup_chans seen (rest1 ++ a :: rest2) = true -> Forall (fun x => N.eqb (a_chan x) (a_chan a) = false) rest2.
